@@ -159,7 +159,17 @@ func constLiterals(src string) map[string]string {
 					if val == "" {
 						continue
 					}
-					if _, dup := out[id.Name]; dup {
+					if prev, dup := out[id.Name]; dup && prev != val {
+						// several constants of this name with different values (the table is not scope aware): the
+						// candidates are kept for the one use that can still be judged, a call of the name
+						cands := out["\x00cand:"+id.Name]
+						if cands == "" {
+							cands = prev
+						}
+						if prev == "\x00ambiguous" {
+							cands = out["\x00cand:"+id.Name]
+						}
+						out["\x00cand:"+id.Name] = cands + "\x01" + val
 						out[id.Name] = "\x00ambiguous"
 					} else {
 						out[id.Name] = val
@@ -256,6 +266,9 @@ func evalToLiteral(text string) string {
 // and a pure builtin is read both ways (constExprErrors walks twice and unites what the two readings raise).
 var c01calleeConstFirst bool
 
+// c01calleePick selects, in the constant-first reading, which of several same-named constants a callee denotes.
+var c01calleePick int
+
 func constText(x parser.Expr, consts map[string]string) (string, bool) {
 	switch n := x.(type) {
 	case *parser.IntLit:
@@ -325,7 +338,11 @@ func constText(x parser.Expr, consts map[string]string) (string, bool) {
 				// the callee names a constant of the script (which may shadow a builtin): the call is the constant
 				// expression <literal>(args), which raises NotCallableError when evaluated
 				if v == "\x00ambiguous" {
-					return "", false
+					cands := strings.Split(consts["\x00cand:"+id.Name], "\x01")
+					v = cands[c01calleePick%len(cands)]
+					if v == "" || v == "\x00ambiguous" {
+						return "", false
+					}
 				}
 				fn = "(" + v + ")"
 			} else if c01pureBuiltins[id.Name] {
@@ -370,9 +387,13 @@ func constExprErrors(src string, cache map[string]string) map[string]bool {
 	}
 	if shadowing && !c01calleeConstFirst {
 		c01calleeConstFirst = true
-		for k := range constExprErrors(src, cache) {
-			out[k] = true
+		for pick := 0; pick < 3; pick++ {
+			c01calleePick = pick
+			for k := range constExprErrors(src, cache) {
+				out[k] = true
+			}
 		}
+		c01calleePick = 0
 		c01calleeConstFirst = false
 	}
 	ref.Walk(f, func(n parser.Node) bool {
@@ -670,8 +691,9 @@ func (m c01) Run(c *core.Ctx) {
 	// (1c) const groups with implicit repetition: the expression of the first constant is compiled again for every
 	// following value-less constant (with another iota, and with whatever the names mean at that point - a constant of
 	// the group may re-declare a name the expression uses)
-	for _, expr := range []string{"x + iota", "iota * x", "x << iota", "len(\"ab\") + iota + x", "[x, iota, y][iota % 3]", "x + y + iota", "-x + iota", "iota == 1 ? x : -x", "string(x) + string(iota)", "x", "func() { return x + 10 }() + iota", "[func(k) { return k + x + y }(iota)][0]"} {
-		for _, names := range [][3]string{{"a", "b", "c"}, {"a", "x", "c"}, {"a", "b", "x"}, {"a", "y", "x"}, {"len", "b", "c"}} {
+	for _, expr := range []string{"x + iota", "iota * x", "x << iota", "len(\"ab\") + iota + x", "[x, iota, y][iota % 3]", "x + y + iota", "-x + iota", "iota == 1 ? x : -x", "string(x) + string(iota)", "x", "func() { return x + 10 }() + iota", "[func(k) { return k + x + y }(iota)][0]",
+		"len(\"abc\")", "len(\"ab\") + x", "string(65) + \"k\"", "len(string(x))"} {
+		for _, names := range [][3]string{{"a", "b", "c"}, {"a", "x", "c"}, {"a", "b", "x"}, {"a", "y", "x"}, {"len", "b", "c"}, {"a", "len", "c"}, {"a", "string", "len"}} {
 			for _, outer := range []string{"const x = 1\nconst y = 2.5\n", "const (\n  x = 3\n  y = 4u\n)\n", "x := 1\ny := 2\n"} {
 				for wi, wrap := range []string{"%s%sreturn [%s, %s, %s]\n", "%sf := func() {\n%sreturn [%s, %s, %s]\n}\nreturn f()\n", "%sf := func() {\n  return func() {\n%sreturn [%s, %s, %s]\n  }\n}\nreturn f()()\n"} {
 					idx++
